@@ -207,16 +207,93 @@ theorem steps_clock_le {ok : Sys → Action → Prop} {j0 : JobObj} {s s' : Sys}
   | refl => exact Int.le_refl _
   | step a _ _ _ ih => exact Int.le_trans ih (step_clock _ a)
 
+theorem lookupRef_some' {existing : List TaskRef} {n : String} {ex : TaskRef} (h : lookupRef existing n = some ex) :
+    ex ∈ existing ∧ ex.name = n := by
+  unfold lookupRef at h
+  exact ⟨List.mem_reverse.mp (List.mem_of_find?_eq_some h), by simpa using List.find?_some h⟩
+
+theorem lookupRef_of_mem' {B : List TaskRef} {b : TaskRef} (hb : b ∈ B) : ∃ b', lookupRef B b.name = some b' := by
+  unfold lookupRef
+  cases h : B.reverse.find? (fun r => r.name == b.name) with
+  | some b' => exact ⟨b', rfl⟩
+  | none =>
+    exfalso
+    have := List.find?_eq_none.mp h b (List.mem_reverse.mpr hb)
+    simp at this
+
+/-- a running timestamp in what `GetTaskRef` records comes from the task or from the ref recorded before -/
+theorem getTaskRef_running_src (e : Option TaskRef) (t : Task) (v : Time)
+    (h : (getTaskRef e t).runningTimestamp = some v) :
+    t.ref.runningTimestamp = some v ∨ ∃ ex, e = some ex ∧ ex.runningTimestamp = some v := by
+  unfold getTaskRef at h
+  cases e with
+  | none =>
+    simp only at h
+    split at h <;> exact Or.inl h
+  | some ex =>
+    simp only at h
+    cases hr : t.ref.runningTimestamp with
+    | some w =>
+      left
+      repeat' split at h
+      all_goals simp_all
+    | none =>
+      right
+      refine ⟨ex, rfl, ?_⟩
+      repeat' split at h
+      all_goals simp_all
+
+/-- … and likewise a finish timestamp -/
+theorem getTaskRef_finish_src (e : Option TaskRef) (t : Task) (v : Time)
+    (h : (getTaskRef e t).finishTimestamp = some v) :
+    t.ref.finishTimestamp = some v ∨ ∃ ex, e = some ex ∧ ex.finishTimestamp = some v := by
+  unfold getTaskRef at h
+  cases e with
+  | none =>
+    simp only at h
+    split at h <;> exact Or.inl h
+  | some ex =>
+    simp only at h
+    cases hf : t.ref.finishTimestamp with
+    | some w =>
+      cases hxf : ex.finishTimestamp with
+      | none =>
+        left
+        repeat' split at h
+        all_goals simp_all
+      | some u =>
+        by_cases hfinal : isFinalTaskState ex.status.state = true
+        · right
+          refine ⟨ex, rfl, ?_⟩
+          repeat' split at h
+          all_goals simp_all
+        · left
+          repeat' split at h
+          all_goals simp_all
+    | none =>
+      right
+      refine ⟨ex, rfl, ?_⟩
+      repeat' split at h
+      all_goals simp_all
+
 /-! ### why a pod delete was issued -/
 
 /-- the reason of a pod delete of a pass, against the clock / configuration `s` and the cached Job `jo`
 the pass started with; `t` is the task the delete was issued for -/
 inductive PodDeleteWhy (s : Sys) (jo : JobObj) (c : Call) (t : Task) : Prop
-  /-- pending timeout `T > 0` reached for a task that is neither running nor finished nor being deleted -/
-  | pendingTimeout (T : Int) : c.force = false → isStarted jo.job = true → jo.job.deletionTimestamp = none →
-      getPendingTimeout jo.job s.cfg = some T → 0 < T →
-      t.ref.runningTimestamp = none → t.ref.finishTimestamp = none →
-      (t.ref.creationTimestamp.getD zeroTime : Int) + T ≤ s.clock → t.deletionTimestamp = none →
+  /-- pending timeout `T > 0` reached for a task `t` that is not being deleted and that NEITHER the recorded
+  ref NOR the live pod shows to have begun running (repair of F32: the step judges a task by the ref recorded
+  in the Job's status): `t'` is the task the pass read from the pod `p'` (controlled by the Job) under that
+  name — its own ref, which since the repair also reads `LastTerminationState`, reports no running and no
+  finish timestamp, and its `creation + T ≤ clock` — and the ref the cached Job records under that name, if
+  any, shows neither timestamp -/
+  | pendingTimeout (T : Int) (t' : Task) (p' : PodObj) : c.force = false → isStarted jo.job = true →
+      jo.job.deletionTimestamp = none → getPendingTimeout jo.job s.cfg = some T → 0 < T →
+      t.deletionTimestamp = none →
+      t'.name = c.name → podTask p' = some t' → p'.ownerUid = some jo.uid →
+      t'.ref.runningTimestamp = none → t'.ref.finishTimestamp = none →
+      (t'.ref.creationTimestamp.getD zeroTime : Int) + T ≤ s.clock →
+      (∀ e, lookupRef jo.job.status.tasks c.name = some e → e.runningTimestamp = none ∧ e.finishTimestamp = none) →
       PodDeleteWhy s jo c t
   /-- kill sweep: the cached Job's kill timestamp has passed -/
   | killPassed (k : Int) : c.force = false → isStarted jo.job = true → jo.job.deletionTimestamp = none →
@@ -263,12 +340,88 @@ theorem pod_delete_why (s : Sys) (c : Call) (hc : c ∈ (step s .work).calls) (h
       obtain ⟨p, hpt, hpo⟩ := hown
       refine ⟨t, p, hjo, hn, hpt, hpo, ?_⟩
       cases hreason with
-      | pendingTimeout T hf hT hpos hp hd hdt =>
-        unfold isPending at hp
-        simp only [Bool.and_eq_true, Option.isNone_iff_eq_none] at hp
+      | pendingTimeout T rj2 hf hT hpos hts hp hd hdt =>
+        have hown1 : ∀ x ∈ tasks1, ∃ p, podTask p = some x ∧ p.ownerUid = some jo.uid := by
+          intro x hx
+          rcases syncCreateTasks_members sp jo jo.job _ s1 rj1 tasks1 hcr x hx with h0 | h1
+          · unfold tasks0 tasksForRefs at h0
+            obtain ⟨ex, _, hg⟩ := List.mem_filterMap.mp h0
+            obtain ⟨p, _, hpt, hpo⟩ := getTaskForRef_owned hg
+            exact ⟨p, hpt, hpo⟩
+          · exact h1
+        have hok1 : ∀ x ∈ tasks1, x.ref.name = x.name := by
+          intro x hx
+          obtain ⟨p, hpt, _⟩ := hown1 x hx
+          exact (podTask_ok hpt).1
+        obtain ⟨t', ht', hn', hr', hf', hc', hrec⟩ := pending_judged sp.clock rj1.status.tasks tasks1 rj2 t hok1 hts ht hp
+        obtain ⟨p', hpt', hpo'⟩ := hown1 t' ht'
         unfold pendDeadline at hd
-        exact .pendingTimeout T hf hst hnd (by rw [← hview.cfg]; exact hT) hpos hp.2 hp.1
-          (by rw [← hview.clock]; exact hd) hdt
+        rw [hc'] at hd
+        refine .pendingTimeout T t' p' hf hst hnd (by rw [← hview.cfg]; exact hT) hpos hdt (hn'.trans hn) hpt' hpo' hr' hf'
+          (by rw [← hview.clock]; exact hd) ?_
+        -- the ref the CACHED Job records under that name
+        intro e he
+        rw [← hn] at he
+        rcases syncCreateTasks_tasks sp jo jo.job _ s1 rj1 tasks1 hcr with h1 | h1
+        · exact hrec e (by rw [h1]; exact he)
+        · -- the creation step refreshed the refs itself: the refreshed ref of that name shows at least
+          -- what the cached one shows
+          obtain ⟨f1, f2⟩ : (getTaskRef (lookupRef jo.job.status.tasks t'.name) t').runningTimestamp = none ∧
+              (getTaskRef (lookupRef jo.job.status.tasks t'.name) t').finishTimestamp = none := by
+            have hm : getTaskRef (lookupRef jo.job.status.tasks t'.name) t' ∈ rj1.status.tasks := by
+              rw [h1]; unfold generateTaskRefs
+              rw [StatusLemmas.mem_sortTaskRefs]
+              exact List.mem_append_left _ (List.mem_map.mpr ⟨t', ht', rfl⟩)
+            obtain ⟨b, hb⟩ := lookupRef_of_mem' hm
+            have hbn : b.name = t.name := by
+              have := (lookupRef_some' hb).2
+              rw [this, StatusLemmas.getTaskRef_name, hok1 t' ht', hn']
+            have hb' : lookupRef rj1.status.tasks t.name = some b := by
+              rw [StatusLemmas.getTaskRef_name, hok1 t' ht', hn'] at hb; exact hb
+            obtain ⟨hbr, hbf⟩ := hrec b hb'
+            -- `b` is itself a refreshed ref of that name
+            have hbm := (lookupRef_some' hb).1
+            rw [h1] at hbm
+            unfold generateTaskRefs at hbm
+            rw [StatusLemmas.mem_sortTaskRefs] at hbm
+            rcases List.mem_append.mp hbm with h | h
+            · obtain ⟨t'', ht'', rfl⟩ := List.mem_map.mp h
+              rw [StatusLemmas.getTaskRef_name, hok1 t'' ht''] at hbn
+              obtain ⟨s1', s2'⟩ := getTaskRef_sub (lookupRef jo.job.status.tasks t''.name) t''
+              -- both refreshed refs are built on the same cached ref; the verdict needs the cached one only
+              have c1 := (s2' hbr).2
+              have c2 := (s1' hbf).2
+              rw [hbn, ← hn'] at c1 c2
+              constructor
+              · cases hx : (getTaskRef (lookupRef jo.job.status.tasks t'.name) t').runningTimestamp with
+                | none => rfl
+                | some v =>
+                  exfalso
+                  have := getTaskRef_running_src (lookupRef jo.job.status.tasks t'.name) t' v hx
+                  rcases this with h' | ⟨e', he', h'⟩
+                  · rw [hr'] at h'; cases h'
+                  · rw [c1 e' he'] at h'; cases h'
+              · cases hx : (getTaskRef (lookupRef jo.job.status.tasks t'.name) t').finishTimestamp with
+                | none => rfl
+                | some v =>
+                  exfalso
+                  have := getTaskRef_finish_src (lookupRef jo.job.status.tasks t'.name) t' v hx
+                  rcases this with h' | ⟨e', he', h'⟩
+                  · rw [hf'] at h'; cases h'
+                  · rw [c2 e' he'] at h'; cases h'
+            · exfalso
+              obtain ⟨e0, he0, rfl⟩ := List.mem_map.mp h
+              have hnot := (List.mem_filter.mp he0).2
+              have hname : (lostRef sp.clock e0).name = e0.name := by
+                unfold lostRef
+                cases e0.finishTimestamp <;> cases e0.deletedStatus <;> rfl
+              rw [hname] at hbn
+              simp only [Bool.not_eq_true', ← Bool.not_eq_true] at hnot
+              rw [List.contains_iff_mem] at hnot
+              exact hnot (List.mem_map.mpr ⟨t, ht, hbn.symm⟩)
+          obtain ⟨s3, s4⟩ := getTaskRef_sub (lookupRef jo.job.status.tasks t'.name) t'
+          rw [hn'] at s3 s4 f1 f2
+          exact ⟨(s4 f1).2 e he, (s3 f2).2 e he⟩
       | kill rj' hf hfin hdt hss hk =>
         have hkt : rj'.killTimestamp = jo.job.killTimestamp := hss.killTimestamp.trans hle.killTimestamp
         have htm : rj'.template = jo.job.template := hss.template.trans hle.template
